@@ -119,8 +119,8 @@ pub const PROFILES: &[Profile] = &[
         setup_ops: (3, 10),
         par_ops: (3, 14),
         post_ops: (0, 4),
-        fault_pct: 0,
-        fault_kinds: &[],
+        fault_pct: 6,
+        fault_kinds: &[Cb::Clone, Cb::Clone, Cb::Closure, Cb::Drop],
         max_len: 5,
         families: ALL_FAM,
     },
@@ -198,7 +198,7 @@ pub const PROFILES: &[Profile] = &[
     },
     Profile {
         name: "C10",
-        weights: &[(CreateThin, 18), (Thin, 22), (ThinMut, 16), (Clone, 12), (Inspect, 8), (Cmp, 4), (Drop, 14), (Swap, 2), (Uniq, 2), (Raw, 3)],
+        weights: &[(CreateThin, 18), (CreateLying, 6), (Thin, 22), (ThinMut, 16), (Clone, 12), (Inspect, 8), (Cmp, 4), (Drop, 14), (Swap, 2), (Uniq, 2), (Raw, 3)],
         threads: &[(1, 100)],
         setup_ops: (5, 32),
         par_ops: (0, 0),
